@@ -371,6 +371,9 @@ struct CommandBuilderOptions {
     action: ExecAction,
     env: HashMap<OsString, OsString>,
     limiters: LimiterCollection,
+    /// The limiters before anything was charged to them: in replace mode the
+    /// command line is measured again once the input line is substituted.
+    unused_limiters: LimiterCollection,
     verbose: bool,
     close_stdin: bool,
     replace: Option<String>,
@@ -386,6 +389,7 @@ impl CommandBuilderOptions {
             ExecAction::Command(args) => args.iter().map(std::convert::AsRef::as_ref).collect(),
             ExecAction::Echo => vec![OsStr::new("echo")],
         };
+        let unused_limiters = limiters.clone();
 
         for arg in initial_args {
             limiters.try_arg(Argument {
@@ -398,6 +402,7 @@ impl CommandBuilderOptions {
             action,
             env,
             limiters,
+            unused_limiters,
             verbose: false,
             close_stdin: false,
             replace,
@@ -421,6 +426,33 @@ impl CommandBuilder<'_> {
     }
 
     fn add_arg(&mut self, arg: Argument) -> Result<(), ExhaustedCommandSpace> {
+        if let (Some(replace_str), ExecAction::Command(args)) =
+            (&self.options.replace, &self.options.action)
+        {
+            // What is executed is not the initial arguments followed by the
+            // line, but the initial arguments with the line substituted. That
+            // command line has to fit as well; it can be much larger than what
+            // was read (several occurrences of the replace string).
+            let mut limiters = self.options.unused_limiters.clone();
+            let mut command_line = vec![args[0].clone()];
+            command_line.extend(
+                args[1..]
+                    .iter()
+                    .map(|initial| replace_in_argument(initial, replace_str, &arg.arg)),
+            );
+            for substituted in command_line {
+                let fits = limiters.try_arg(Argument {
+                    arg: substituted,
+                    kind: ArgumentKind::Initial,
+                });
+                if fits.is_err() {
+                    return Err(ExhaustedCommandSpace {
+                        arg,
+                        out_of_chars: true,
+                    });
+                }
+            }
+        }
         let arg = self.limiters.try_arg(arg)?;
         self.extra_args.push(arg.arg);
         Ok(())
